@@ -989,8 +989,10 @@ func (path *Path) SetLargeCommunities(cs []*bgp.LargeCommunity, doReplace bool) 
 	if a == nil || doReplace {
 		path.setPathAttr(bgp.NewPathAttributeLargeCommunities(cs))
 	} else {
+		// Concat rather than append, so growing this path's list cannot write
+		// into the backing array of an attribute shared with another path.
 		l := a.(*bgp.PathAttributeLargeCommunities).Values
-		path.setPathAttr(bgp.NewPathAttributeLargeCommunities(append(l, cs...)))
+		path.setPathAttr(bgp.NewPathAttributeLargeCommunities(slices.Concat(l, cs)))
 	}
 }
 
